@@ -134,6 +134,13 @@ def bool_term(expr, symbol=None, negate=False):
         is_and = isinstance(expr.op, ast.And) != negate
         parts = [bool_term(value, symbol, negate) for value in expr.values]
         return _junction('and' if is_and else 'or', parts)
+    if isinstance(expr, ast.IfExp):
+        # a if c else b  ==  (c and a) or (not c and b)
+        rewritten = ast.BoolOp(op=ast.Or(), values=[
+            ast.BoolOp(op=ast.And(), values=[expr.test, expr.body]),
+            ast.BoolOp(op=ast.And(), values=[ast.UnaryOp(op=ast.Not(), operand=expr.test),
+                                             expr.orelse])])
+        return bool_term(rewritten, symbol, negate)
     if isinstance(expr, ast.Compare):
         if len(expr.ops) != 1:
             parts = []
